@@ -45,6 +45,7 @@ def check(ck):
     r01_8(ck, rf)
     r01_9(ck)
     r01_10(ck)
+    r01_12(ck)
 
 
 # ------------------------------------------------------------------ R01.1
@@ -853,3 +854,10 @@ def r01_10(ck):
     ck.rules.pop('R02.1', None)
     c13.r13_1(ck, only=('update_condition', 'next_update',
                         'calculate_timestep'), rule='R01.11')
+
+
+def r01_12(ck):
+    """Updates in flight of *moved* (not deleted) processes are not lost
+    (shared with C10 R10.11)."""
+    from . import c10
+    c10.r10_11(ck, rule='R01.12')
